@@ -9,6 +9,7 @@ package quic_test
 // observer decrypted, and the goroutines left in the bubble.
 
 import (
+	"strings"
 	"context"
 	"errors"
 	"fmt"
@@ -40,10 +41,19 @@ type c17Case struct {
 	Client    string   `json:"client"` // plain | Chrome_115_IPv4 ...
 	Transfer  bool     `json:"mid_transfer"`
 	Retry     bool     `json:"retry,omitempty"`    // the server validates addresses with a Retry
+	Multi     int      `json:"multi,omitempty"`    // > 1: this many concurrent instances of every accept / open / receive-datagram call in the blocked set
 	Churn     int      `json:"churn_us,omitempty"` // > 0: 30 incoming streams reach EOF in the victim's readers this many microseconds before .. after the cause
 }
 
 var c17Calls = []string{"read", "write", "accept", "acceptuni", "opensync", "openunisync", "rcvdgram", "writesmall"}
+
+// c17Base strips the instance suffix of a blocked call's name.
+func c17Base(name string) string {
+	if i := strings.IndexByte(name, '#'); i >= 0 {
+		return name[:i]
+	}
+	return name
+}
 
 type c17Ret struct {
 	call string
@@ -143,6 +153,9 @@ func TestVerifC17Close(t *testing.T) {
 					client = []string{"Chrome_115_IPv4", "Firefox_116A"}[rng.IntN(2)]
 				}
 				cc := c17Case{Name: fmt.Sprintf("%s/%s/set%03d", cause, victim, si), Cause: cause, Victim: victim, Blocked: s, IdleMs: idle, Client: client, Transfer: si%5 == 4, Retry: si%6 == 1}
+				if si%3 == 2 {
+					cc.Multi = 2 + si%2
+				}
 				add(cc)
 			}
 		}
@@ -430,7 +443,8 @@ func runC17(l *evlog.Log, c *evlog.Case, cs *c17Case) {
 	var mu sync.Mutex
 	rets := map[string]*c17Ret{}
 	var wg sync.WaitGroup
-	run := func(name string, f func() error) {
+	var run func(name string, f func() error)
+	run = func(name string, f func() error) {
 		r := &c17Ret{call: name}
 		mu.Lock()
 		rets[name] = r
@@ -443,6 +457,18 @@ func runC17(l *evlog.Log, c *evlog.Case, cs *c17Case) {
 			r.at, r.err, r.ok = start(), err, true
 			mu.Unlock()
 		}()
+	}
+	bgc, bgCancel := context.WithCancel(bg) // the context of the blocked calls; cancelled only to let a stuck call go at the end
+	defer bgCancel()
+	plainRun := run
+	run = func(name string, f func() error) {
+		plainRun(name, f)
+		switch name {
+		case "accept", "acceptuni", "opensync", "openunisync", "rcvdgram":
+			for i := 2; i <= cs.Multi; i++ {
+				plainRun(fmt.Sprintf("%s#%d", name, i), f)
+			}
+		}
 	}
 	for _, b := range cs.Blocked {
 		switch b {
@@ -471,18 +497,18 @@ func runC17(l *evlog.Log, c *evlog.Case, cs *c17Case) {
 			if cs.Transfer {
 				continue // the background transfer uses AcceptStream itself
 			}
-			run(b, func() error { _, err := victim.AcceptStream(bg); return err })
+			run(b, func() error { _, err := victim.AcceptStream(bgc); return err })
 		case "acceptuni":
 			if cs.Churn > 0 {
 				continue // the churn below accepts unidirectional streams itself
 			}
-			run(b, func() error { _, err := victim.AcceptUniStream(bg); return err })
+			run(b, func() error { _, err := victim.AcceptUniStream(bgc); return err })
 		case "opensync":
-			run(b, func() error { _, err := victim.OpenStreamSync(bg); return err })
+			run(b, func() error { _, err := victim.OpenStreamSync(bgc); return err })
 		case "openunisync":
-			run(b, func() error { _, err := victim.OpenUniStreamSync(bg); return err })
+			run(b, func() error { _, err := victim.OpenUniStreamSync(bgc); return err })
 		case "rcvdgram":
-			run(b, func() error { _, err := victim.ReceiveDatagram(bg); return err })
+			run(b, func() error { _, err := victim.ReceiveDatagram(bgc); return err })
 		}
 	}
 	if !cs.Transfer {
@@ -756,14 +782,14 @@ func runC17(l *evlog.Log, c *evlog.Case, cs *c17Case) {
 	mu.Lock()
 	for name, r := range rets {
 		if !r.ok {
-			viol("call-still-blocked|"+name, "%s still blocked 1 s (virtual) after the connection context was cancelled with %v", name, cause)
+			viol("call-still-blocked|"+c17Base(name), "%s still blocked 1 s (virtual) after the connection context was cancelled with %v", name, cause)
 			continue
 		}
 		if r.at-doneAt > time.Second {
-			viol("call-returned-late|"+name, "%s returned %s after the context was cancelled", name, r.at-doneAt)
+			viol("call-returned-late|"+c17Base(name), "%s returned %s after the context was cancelled", name, r.at-doneAt)
 		}
 		if ec := c17ErrClass(r.err); ec != got {
-			viol("call-error-differs-from-cause|"+name, "%s returned %s (%v); recorded cause %s", name, ec, r.err, got)
+			viol("call-error-differs-from-cause|"+c17Base(name), "%s returned %s (%v); recorded cause %s", name, ec, r.err, got)
 		}
 		l.Count("blocked_calls_checked", 1)
 	}
@@ -775,6 +801,7 @@ func runC17(l *evlog.Log, c *evlog.Case, cs *c17Case) {
 		victim.CloseWithError(0, "")
 		s1.CancelRead(0)
 		s2.CancelWrite(0)
+		bgCancel()
 		<-retDone
 	}
 
@@ -851,7 +878,7 @@ func runC17(l *evlog.Log, c *evlog.Case, cs *c17Case) {
 		l.Count("wire_close_checks", 1)
 	}
 	nb := len(cs.Blocked)
-	c.Eval(fmt.Sprintf("%s/%s/%v/%s/t%v", cs.Cause, cs.Victim, cs.Blocked, cs.Client, cs.Transfer))
+	c.Eval(fmt.Sprintf("%s/%s/%v/%s/t%v/m%d", cs.Cause, cs.Victim, cs.Blocked, cs.Client, cs.Transfer, cs.Multi))
 	l.Count("cases_with_blocked_calls", int64(min(nb, 1)))
 	c.Sample(cs.Cause, map[string]any{"case": cs.Name, "blocked": cs.Blocked, "cause": got, "ctx_done_after_trigger": (doneAt - trigger).String()})
 }
